@@ -65,8 +65,8 @@ CHECKS = {
         assumptions=["chrono / uuid / big-number layouts are frozen as found on the pinned tree (no external document)"],
     ),
     "C05": dict(
-        claim="Fault enumeration over hostile inputs: every byte string of length <= 2 for every catalogue type and derived declaration (length <= 3 for the systematic catalogue in the thorough tier), structure-aware tamperings of valid encodings, random bytes with a varint dictionary, and hostile read sequences on the three BinaryInput implementations, each executed under the panic monitor, the allocation monitor (largest single request <= 64 KiB + 256 x len, total <= 256 KiB + 1024 x len), the step monitor (sequence items <= len + 65536, hook) and with crash attribution through breadcrumbs; debug (overflow checks) and release builds; thorough adds AddressSanitizer / MemorySanitizer lanes, a Miri shard and a nesting-depth probe. Held on the executions counted in the evidence, with the known findings listed.",
-        note="Trusted: the counting allocator and the verif-hooks step counter; budgets are constants justified in DESIGN 6.2. Known findings D09 (zero-width elements) and D16 (unbounded recursion depth) are reported, not suppressed silently.",
+        claim="Fault enumeration over hostile inputs: every byte string of length <= 2 for every catalogue type and derived declaration (length <= 3 for the systematic catalogue in the thorough tier), structure-aware tamperings of valid encodings, random bytes with a varint dictionary, and hostile read sequences on the three BinaryInput implementations, each executed under the panic monitor, the allocation monitor (largest single request <= 64 KiB + 256 x len, total <= 256 KiB + 1024 x len), the step monitor (sequence items <= len + 65536, hook) and with crash attribution through breadcrumbs; debug (overflow checks) and release builds; lenient client readers (a field codec that survives a failing nested decode) on tampered data; nesting-depth probes and own-process probes (one input per process, for inputs that may end in an allocation failure); thorough adds AddressSanitizer / MemorySanitizer / valgrind-memcheck lanes and all 3-byte inputs. Held on the executions counted in the evidence, with the known findings listed.",
+        note="Trusted: the counting allocator and the verif-hooks step counter; budgets are constants justified in DESIGN 6.2. Known findings D09 (zero-width elements), D16 (unbounded recursion depth), D26 (a citation costs a copy of the string) and D27 (hash containers keyed by big decimals) are reported, not suppressed silently.",
         technique="panic / allocation / step monitors + sanitizer lanes over exhaustive short inputs and structure-aware mutation",
         level="fault_enumeration",
         quick=NATIVE,
